@@ -251,7 +251,8 @@ Inductive connmode := CAccept | CRefuse | CStall | CAcceptClose | CNoRead.
 Record act := mkact { a_junk : bool; a_reply : option N; a_dup : bool; a_down : bool }.
 
 Record scen := mkscen {
-  sc_cfg : cfg; sc_conn : connmode; sc_acts : list act; sc_callers : nat; sc_calls : nat; sc_eff : N; sc_gap : N }.
+  sc_cfg : cfg; sc_conn : connmode; sc_acts : list act; sc_callers : nat; sc_calls : nat; sc_eff : N; sc_gap : N;
+  sc_prime : bool (* concurrent callers only: one call alone first, the callers start when it has returned *) }.
 
 (* scheduler state: packets the peer will emit (time, id, payload), connection losses to deliver *)
 Record env := mkenv { e_pend : list (N * N * N); e_down : nat }.
@@ -277,9 +278,20 @@ Definition rcvs_done (s : state) : bool :=
   forallb (fun r => match r_pc r with RDone => true | _ => false end) (rcvs s).
 
 (* next start, if one is due *)
+Definition expected_calls (sc : scen) : nat :=
+  if Nat.ltb 1 (sc_callers sc) then sc_callers sc + (if sc_prime sc then 1 else 0) else sc_calls sc.
 Definition want_start (sc : scen) (s : state) : bool :=
   let n := length (calls s) in
-  if Nat.ltb 1 (sc_callers sc) then Nat.ltb n (sc_callers sc)
+  if Nat.ltb 1 (sc_callers sc) then
+    Nat.ltb n (expected_calls sc) &&
+    (if sc_prime sc then
+       match n with
+       | O => true
+       | S _ => match nth_error (calls s) 0 with
+                | Some k => match k_pc k with Returned => true | _ => false end
+                | None => false end
+       end
+     else true)
   else if Nat.ltb n (sc_calls sc) then
     match n with
     | O => true
@@ -342,7 +354,6 @@ Definition sched (sc : scen) (s : state) (e : env) : label * env :=
       match find_idx (call_urgent c s) (calls s) 0 with Some (i, k) => (call_label c s i k, e) | None => (Tick, e) end
   end end end end end.
 
-Definition expected_calls (sc : scen) : nat := if Nat.ltb 1 (sc_callers sc) then sc_callers sc else sc_calls sc.
 Definition finished (sc : scen) (s : state) (e : env) : bool :=
   Nat.eqb (length (calls s)) (expected_calls sc)
   && all_returned s && rcvs_done s && match e_pend e with [] => true | _ => false end.
@@ -477,10 +488,10 @@ Definition accepts (es : list event) : bool :=
 (* ---------- a correspondence case ---------- *)
 Record c09case := mkcase {
   cc_cfg : cfg; cc_conn : connmode; cc_acts : list act; cc_callers : nat; cc_calls : nat; cc_eff : N; cc_gap : N;
-  cc_predict : bool; cc_obs : list (ocls * N); cc_events : list event; cc_final : N * N * N }.
+  cc_prime : bool; cc_predict : bool; cc_obs : list (ocls * N); cc_events : list event; cc_final : N * N * N }.
 
 Definition c09_check (x : c09case) : bool :=
-  let sc := mkscen (cc_cfg x) (cc_conn x) (cc_acts x) (cc_callers x) (cc_calls x) (cc_eff x) (cc_gap x) in
+  let sc := mkscen (cc_cfg x) (cc_conn x) (cc_acts x) (cc_callers x) (cc_calls x) (cc_eff x) (cc_gap x) (cc_prime x) in
   (if cc_predict x then predicted sc (cc_obs x) else true)
   && accepts (cc_events x)
   && (let '(q, n, p) := cc_final x in (q =? 0) && (n =? 0) && (p =? 0)).
